@@ -27,6 +27,7 @@ import numpy as np
 from physt._construction import (
     calculate_1d_bins,
     calculate_nd_bins,
+    extract_1d_array,
     extract_nd_array,
     extract_weights,
 )
@@ -790,6 +791,9 @@ def extract_transformed_data(
     """Extract and potentially transform data for binning."""
     if data is None:
         return None, None
+    if transformed and issubclass(klass, Histogram1D):
+        # One coordinate per observation
+        return extract_1d_array(data, dropna=dropna)
     _, array, array_mask = extract_nd_array(data, dim=None, dropna=dropna)
     if not transformed:
         array = klass.transform(array)  # type: ignore
